@@ -239,7 +239,7 @@ type proc struct {
 
 type world struct {
 	full     bool
-	db       basedb.Database
+	db       *crashDB
 	prefix   string
 	readHist bool
 	p        *proc
@@ -248,18 +248,61 @@ type world struct {
 	step     int
 	// monitor bookkeeping, from real outputs only
 	restarts   int
-	incMax     int              // highest height started / learned as decided by this incarnation (-1 none)
-	loadMax    int              // stored highest height found at the last restart (-1 none)
-	everDec    int              // highest height ever learned as decided (observation only)
-	startedInc map[int]bool     // heights successfully started by this incarnation
+	incMax     int          // highest height started / learned as decided by this incarnation (-1 none)
+	loadMax    int          // stored highest height found at the last restart (-1 none)
+	everDec    int          // highest height ever learned as decided (observation only)
+	startedInc map[int]bool // heights successfully started by this incarnation
+	certTop    int          // highest height this incarnation learned from a completely processed, timely decided message
+	certDesc   string
 	late       map[int]lateInfo // heights learned through a decided message that arrived below the controller height
 	histInc    map[int]bool     // historical records written by this incarnation
+}
+
+// crashDB is the database handed to ibft/storage: the real in-memory badger, except that when armed the process
+// "dies" (panic with crashSignal, recovered by the harness) right before the (left+1)-th Set. Everything written
+// before that point stays durable; the harness then throws the validator away and restarts on the surviving data.
+type crashSignal struct{}
+
+type crashDB struct {
+	basedb.Database
+	armed bool
+	left  int
+	sets  int // Sets that reached the real database since the last arm()
+}
+
+func (d *crashDB) arm(k int) { d.armed, d.left, d.sets = true, k, 0 }
+func (d *crashDB) disarm()   { d.armed = false }
+
+func (d *crashDB) Set(prefix []byte, key []byte, value []byte) error {
+	if d.armed {
+		if d.left == 0 {
+			d.armed = false
+			panic(crashSignal{})
+		}
+		d.left--
+	}
+	d.sets++
+	return d.Database.Set(prefix, key, value)
+}
+
+// untilCrash runs f and reports whether the injected process death happened inside it.
+func untilCrash(f func()) (crashed bool) {
+	defer func() {
+		if r := recover(); r != nil {
+			if _, ok := r.(crashSignal); !ok {
+				panic(r)
+			}
+			crashed = true
+		}
+	}()
+	f()
+	return false
 }
 
 // one in-memory badger database for the whole run (opening one per behaviour costs far more than the protocol
 // work); every behaviour gets its own storage prefix, i.e. its own empty ibft store.
 var (
-	sharedDB basedb.Database
+	sharedDB *crashDB
 	worldSeq int
 )
 
@@ -271,11 +314,11 @@ func newWorld(full bool, res *vh.Result, beh string) *world {
 		if err != nil {
 			panic(err)
 		}
-		sharedDB = db
+		sharedDB = &crashDB{Database: db}
 	}
 	worldSeq++
 	w := &world{full: full, db: sharedDB, prefix: fmt.Sprintf("w%d-%s", worldSeq, spectypes.BNRoleAttester.String()),
-		res: res, beh: beh, incMax: -1, loadMax: -1, everDec: -1,
+		res: res, beh: beh, incMax: -1, loadMax: -1, everDec: -1, certTop: -1,
 		startedInc: map[int]bool{}, histInc: map[int]bool{}, late: map[int]lateInfo{}}
 	w.p = w.boot(false)
 	return w
@@ -566,9 +609,34 @@ func (w *world) decided(h, r, n int) error {
 			w.late[h] = lateInfo{at: hb, inc: w.restarts}
 		}
 	}
+	hb := int(w.p.ctrl.Height)
+	inst := w.p.ctrl.StoredInstances.FindInstance(specqbft.Height(h))
+	memDecided := inst != nil && inst.State.Decided
+	_, lateBefore := w.late[h]
 	err := w.deliver(msgsFor(h).cert[[2]int{r, n}], "decided message")
 	w.learned(h) // a valid quorum certificate for h has reached the runner
+	// What this message taught the node must survive the death of this incarnation (checked at the next restart).
+	// Counted only when it was timely (not below the controller height), the node did not already hold the instance
+	// as decided in memory (then it learned it earlier) and the height was never learned through a late decided
+	// message (recorded finding: such a height is not covered by the stored highest).
+	if h >= hb && !memDecided && !lateBefore && h > w.certTop {
+		w.certTop = h
+		w.certDesc = fmt.Sprintf("decided certificate of height %d (round %d, %d signers) processed completely at step %d while the controller height was %d", h, r, n, w.step, hb)
+	}
 	return err
+}
+
+// crashing runs one call with the process dying right before its (k+1)-th database write, then restarts on the
+// surviving database. fired=false: the call made at most k writes and completed (no crash; no restart either).
+func (w *world) crashing(k int, call func()) (fired bool) {
+	w.db.arm(k)
+	fired = untilCrash(call)
+	w.db.disarm()
+	if fired {
+		w.res.Counters["crashes_inside_a_save"]++
+		w.restart()
+	}
+	return fired
 }
 
 // onTimeout delivers a timeout event; stale ones (C17, second half) must leave the controller untouched.
@@ -597,7 +665,10 @@ func (w *world) restart() {
 		panic(err)
 	}
 	w.restarts++
-	w.incMax, w.loadMax = -1, -1
+	if sh, _, _ := certOf(hi); sh < w.certTop {
+		w.res.Violate("restart-lost-highest", fmt.Sprintf("the incarnation that just died had learned height %d as decided (%s), but the stored highest decided height it leaves behind is %d: the next incarnation resumes below it", w.certTop, w.certDesc, sh), w.beh, w.step)
+	}
+	w.incMax, w.loadMax, w.certTop = -1, -1, -1
 	w.startedInc, w.histInc = map[int]bool{}, map[int]bool{}
 	w.p = w.boot(false)
 	if hi == nil {
@@ -651,6 +722,24 @@ func replay(b vh.Behaviour, res *vh.Result) {
 		case "Decided":
 			_ = w.decided(vh.Int(a, "h"), vh.Int(a, "r"), vh.Int(a, "n"))
 			nontrivial = true
+		case "DecidedCrash":
+			h, r, n, k := vh.Int(a, "h"), vh.Int(a, "r"), vh.Int(a, "n"), vh.Int(a, "k")
+			if !w.crashing(k, func() { _ = w.decided(h, r, n) }) {
+				res.Diverge(b.ID, i, "DecidedCrash.fired", true, false) // fewer writes than the spec expects
+				w.restart()
+			}
+			nontrivial = true
+		case "LocalMsgsCrash":
+			h, k := vh.Int(a, "h"), vh.Int(a, "k")
+			if !w.crashing(k, func() {
+				for _, m := range msgsFor(h).local {
+					_ = w.deliver(m, "consensus message")
+				}
+			}) {
+				res.Diverge(b.ID, i, "LocalMsgsCrash.fired", true, false)
+				w.restart()
+			}
+			nontrivial = true
 		case "OnTimeout":
 			w.onTimeout(vh.Int(a, "h"), vh.Int(a, "r"))
 		case "Restart":
@@ -660,7 +749,8 @@ func replay(b vh.Behaviour, res *vh.Result) {
 			panic("unknown action " + name)
 		}
 		if st.State != nil && i > 0 {
-			w.readHist = i == len(b.Steps)-1 || vh.Str(a, "name") == "Restart"
+			nm := vh.Str(a, "name")
+			w.readHist = i == len(b.Steps)-1 || nm == "Restart" || nm == "DecidedCrash" || nm == "LocalMsgsCrash"
 			w.compare(specObs(st.State), w.observe())
 		}
 	}
@@ -716,17 +806,34 @@ func record(path string, seed int64, runs int, full bool, res *vh.Result) {
 				err := w.ctlStart(slot)
 				ev = map[string]any{"event": "CtlStart", "slot": slot, "ok": err == nil}
 			case x < 45 && inst != nil && inst.StartValue != nil && inst.CanProcessMessages() && inst.State.ProposalAcceptedForCurrentRound == nil:
-				for _, m := range msgsFor(cur).local {
-					_ = w.deliver(m, "consensus message")
-				}
 				ev = map[string]any{"event": "LocalMsgs", "h": cur}
+				feed := func() {
+					for _, m := range msgsFor(cur).local {
+						_ = w.deliver(m, "consensus message")
+					}
+				}
+				if k := rng.Intn(2); restartsLeft > 0 && rng.Intn(4) == 0 {
+					if w.crashing(k, feed) { // the process died before its (k+1)-th database write
+						restartsLeft--
+						ev = map[string]any{"event": "LocalMsgsCrash", "h": cur, "k": k}
+					}
+				} else {
+					feed()
+				}
 			case x < 52 && inst != nil && inst.State.ProposalAcceptedForCurrentRound != nil && inst.State.Round == 1 && inst.CanProcessMessages() && !hasSingle(inst, 4):
 				_ = w.deliver(msgsFor(cur).c4, "commit message")
 				ev = map[string]any{"event": "Commit4", "h": cur}
 			case x < 82:
 				h, r, n := rng.Intn(maxH+1), 1+rng.Intn(2), 3+rng.Intn(2)
-				_ = w.decided(h, r, n)
 				ev = map[string]any{"event": "Decided", "h": h, "r": r, "n": n}
+				if k := rng.Intn(2); restartsLeft > 0 && rng.Intn(4) == 0 {
+					if w.crashing(k, func() { _ = w.decided(h, r, n) }) {
+						restartsLeft--
+						ev = map[string]any{"event": "DecidedCrash", "h": h, "r": r, "n": n, "k": k}
+					}
+				} else {
+					_ = w.decided(h, r, n)
+				}
 			case x < 90:
 				h, r := rng.Intn(maxH+1), 1+rng.Intn(2)
 				if i := c.StoredInstances.FindInstance(specqbft.Height(h)); i != nil && r >= int(i.State.Round) && !i.State.Decided && i.CanProcessMessages() && i.State.Round >= 2 {
